@@ -760,6 +760,7 @@ def asgi_case(kind, n, d, fails, aw, mode=0, encfail=None):
 
     st = {"started": 0, "finally": 0, "produced": 0}
     exc = ProducerError("producer failed")
+    send_exc = OSError("client gone (raised by send)")
     sent = []
     state = {"bodies": 0, "final": 0, "after_final": 0, "items": 0, "pings": 0, "other": 0}
     trace = []
@@ -860,7 +861,11 @@ def asgi_case(kind, n, d, fails, aw, mode=0, encfail=None):
                     else:
                         state["other"] += 1
                     state["bodies"] += 1
-                    if state["bodies"] == d and mode not in (6, 7):
+                    if mode == 8:
+                        if state["bodies"] == max(d, 1):
+                            snap()
+                            raise send_exc      # the server reports the vanished client through send() itself
+                    elif state["bodies"] == d and mode not in (6, 7):
                         disconnect.set()
                 else:
                     state["final"] += 1
@@ -868,7 +873,7 @@ def asgi_case(kind, n, d, fails, aw, mode=0, encfail=None):
             for _ in range(aw):
                 await asyncio.sleep(0)
 
-        if d == 0 and mode not in (6, 7):
+        if d == 0 and mode not in (6, 7, 8):
             disconnect.set()
         gen = ObjProducer() if mode == 4 else producer()
         if kind == "sse":
@@ -898,10 +903,14 @@ def asgi_case(kind, n, d, fails, aw, mode=0, encfail=None):
         except BaseException as e:  # noqa
             if encfail is not None and isinstance(e, UnicodeEncodeError):
                 outcome = "fail"
+            elif e is send_exc:
+                outcome = "sendfail"
             else:
                 outcome = ("end" if e is exc else "crash %s" % type(e).__name__)
             raised = 1 if e is exc else 0
-        if outcome == "ret" and fails:
+        if outcome == "sendfail":
+            pass
+        elif outcome == "ret" and fails:
             outcome = "end"
         elif outcome == "end" and not fails:
             outcome = "raise-own"
@@ -1223,6 +1232,8 @@ def oracle_outcome(line, out, asgi=False):
     d = _parse_outcome(out)
     if d["outcome"] == "fail" and a[0] in ("wsgi_encfail", "asgi_encfail"):
         pass    # the consumer's own error (an event that cannot be encoded) propagates to the server
+    elif d["outcome"] == "sendfail" and len(a) > 5 and a[5] == "8":
+        pass    # the server's own error out of send() propagates; the producer is released all the same
     elif d["outcome"] not in ("ret", "end"):
         return "unexpected outcome %s" % out
     if "finally" in d:
@@ -1256,6 +1267,8 @@ def oracle_outcome(line, out, asgi=False):
         if aw_ >= 1 and dd < n and int(d["y"]) > dd + 3:
             return ("the client was gone after %d body messages, yet the producer was stepped %d times (of %d): the "
                     "disconnect was not acted upon" % (dd, int(d["y"]), n))
+        if len(a) > 5 and a[5] == "8":
+            return None
         if len(a) > 5 and a[5] in ("6", "7"):
             # the disconnect arrives while the producer works on item dd: what was yielded before may still be in
             # the relay's hand / queue, so only order and the stepping bound above are demanded
@@ -1488,6 +1501,8 @@ def extra(rng, tier):
                     for aw in (0, 1, 2):
                         lines.append("%s %d %d %d %d 4" % (kind, n, d, fails, aw))
                         lines.append("%s %d %d %d %d 5" % (kind, n, d, fails, aw))
+                        if 1 <= d <= n:
+                            lines.append("%s %d %d %d %d 8" % (kind, n, d, fails, aw))
                         if d < n and aw:
                             lines.append("%s %d %d %d %d 6" % (kind, n, d, fails, aw))
                             lines.append("%s %d %d %d %d 7" % (kind, n, d, fails, aw))
